@@ -75,11 +75,13 @@ def postOp : Handler := fun req => do
 
 def refOf (j : Json) : Ref := { to := charsD j "to", map := boolD j "map", vec := boolD j "vec", arr := boolD j "arr", wrap := boolD j "wrap" }
 def fldOf (j : Json) : Fld :=
-  { name := charsD j "name", refs := (listD j "refs").map refOf, nested := boolD j "nested", len := boolD j "len", sep := boolD j "sep", sepStr := boolD j "sepStr", dur := boolD j "dur", opt := boolD j "opt", serdeAsAttr := boolD j "serdeAsAttr", asOpt := boolD j "asOpt", hdrOpt := boolD j "hdrOpt" }
+  { name := charsD j "name", refs := (listD j "refs").map refOf, nested := boolD j "nested", len := boolD j "len", sep := boolD j "sep", sepStr := boolD j "sepStr", dur := boolD j "dur", opt := boolD j "opt", serdeAsAttr := boolD j "serdeAsAttr", asOpt := boolD j "asOpt", hdrOpt := boolD j "hdrOpt", hdrParse := boolD j "hdrParse" }
+def vbOf (j : Json) : Comp.Name × Bool := (charsD j "variant", boolD j "boxed")
 def itemOf (j : Json) : Item :=
   { file := charsD j "file", kind := charsD j "kind", name := charsD j "name", vis := charsD j "vis", ser := boolD j "ser", de := boolD j "de",
     val := boolD j "val", bare := namesD j "bare", fields := (listD j "fields").map fldOf, variants := namesD j "variants",
-    evstream := boolD j "evstream", respEnum := boolD j "respEnum", reqStruct := boolD j "reqStruct", serdeAs := boolD j "serdeAs", intoResp := boolD j "intoResp", params := namesD j "params", bytesBody := boolD j "bytesBody", optBody := boolD j "optBody" }
+    evstream := boolD j "evstream", respEnum := boolD j "respEnum", reqStruct := boolD j "reqStruct", serdeAs := boolD j "serdeAs", intoResp := boolD j "intoResp", params := namesD j "params", bytesBody := boolD j "bytesBody", optBody := boolD j "optBody",
+    fromStr := boolD j "fromStr", vboxed := (listD j "vboxed").map vbOf, helperCtors := (listD j "helperCtors").map vbOf }
 
 def objLists (j : Json) : List (Comp.Name × List Comp.Name) :=
   match j.getObj? with
@@ -112,6 +114,8 @@ def violStr : Viol → String
   | .serverDurationHeader it => s!"{String.ofList it}: a chrono::Duration header member is read with str::parse, but TimeDelta has no FromStr"
   | .aliasCycle it => s!"type alias {String.ofList it} expands to itself"
   | .missingImport n => s!"derive({String.ofList n}) is used unqualified but not imported"
+  | .headerParseNoFromStr it t => s!"{String.ofList it}: a header member of type {String.ofList t} is built with str::parse, but {String.ofList t} has no FromStr"
+  | .ctorBoxMismatch it v => s!"enum {String.ofList it}: the helper constructor of variant {String.ofList v} and the variant's payload type disagree about Box"
 
 /-- the violations without a class first (they are what makes a verdict a VIOLATION) -/
 def whyOf (m : Mod) : String :=
